@@ -264,6 +264,8 @@ def plan(tier, seed):
     pl.cases = resolver_cases()
     pl.canaries = [canary()]
     pl.finite = [("C10-U/uniform-loops", lambda: uniform.check(LOOPS))]
+    from vfkit import lean as _leanc
+    pl.finite.append(("A6/Lean re-check of the composition lemmas L-IND", _leanc.compose_check('L-IND')))
     ntok = 4 if tier == "quick" else 6
 
     def net():
@@ -280,7 +282,7 @@ def plan(tier, seed):
     pl.replay_builder = replay_builder
     pl.assumptions = c01.ASSUMPTIONS
     pl.trusted_base = c01.TRUSTED
-    pl.lemmas = ["L-IND (paper): Res(x, y) per class with children stubbed by Res gives, for every tree: no implicit "
+    pl.lemmas = ["L-IND (Lean: lemmas/Compose.lean fold_ind; model link assumed): Res(x, y) per class with children stubbed by Res gives, for every tree: no implicit "
                  "operation left, every other node keeps type, content, position and order, fp(y) = relabel(fp(x)) "
                  "(so any compositional boolean meaning read 'implicit = target' is preserved), layout changes only by "
                  "add_head in front of the 2nd.. operands of resolved nodes, input untouched",
